@@ -1,9 +1,1380 @@
 package c11
 
-import "verif/harness/core"
+import (
+	"encoding/json"
+	"fmt"
+	"os"
+	"regexp"
+	"strconv"
+	"strings"
 
-type lockCase struct{}
+	"github.com/dop251/goja"
 
-func genLock(c *core.Ctx) lockCase { return lockCase{} }
+	"verif/harness/core"
+	"verif/harness/gj"
+	"verif/harness/proxyref"
+)
 
-func runLockMin(c *core.Ctx, lc lockCase) core.Result { return core.Result{Verdict: core.Held} }
+// ---------------------------------------------------------------------------------------------------
+// Lock-step: case description
+// ---------------------------------------------------------------------------------------------------
+
+type ldesc struct {
+	V *int    `json:"v,omitempty"` // value index
+	W *bool   `json:"w,omitempty"`
+	G *string `json:"g,omitempty"` // lg | fv | und
+	S *string `json:"s,omitempty"` // ls | und
+	E *bool   `json:"e,omitempty"`
+	C *bool   `json:"c,omitempty"`
+}
+
+type lockOp struct {
+	Op string `json:"op"`
+	K  *int   `json:"k,omitempty"` // key index (prelude LKEYS)
+	D  *ldesc `json:"d,omitempty"`
+	A  []int  `json:"a,omitempty"` // value indices
+	N  []int  `json:"n,omitempty"` // small integers
+	R  string `json:"r,omitempty"` // receiver
+	P  string `json:"p,omitempty"` // prototype candidate
+	C  string `json:"c,omitempty"` // instanceof constructor
+	F  int    `json:"f,omitempty"` // callback id
+}
+
+type lockCase struct {
+	Kind     string   `json:"kind"`
+	Handlers []string `json:"handlers"` // per layer, outermost first: js | go
+	Ops      []lockOp `json:"ops"`
+}
+
+func (c *lockCase) sig() string {
+	b, _ := json.Marshal(c)
+	return "lockstep " + string(b)
+}
+
+var lockKeyNames = []string{"a", "b", "c", "length", "prototype", "name", "0", "1", "2", "3", "5", "acc", "nca", "ro", "fz", "ncw", "@symA", "@symB",
+	"@@toStringTag", "@@iterator", "constructor", "4294967294", "4294967295", "-0", "1.5", "5000", "A", "B", "caller", "callee",
+	"@@isConcatSpreadable", "toJSON", "M", "px", "-1", "01"}
+
+func keyIdx(name string) int {
+	for i, k := range lockKeyNames {
+		if k == name {
+			return i
+		}
+	}
+	panic("no key " + name)
+}
+
+type kindInfo struct {
+	hostKeys []string // host kinds: the keys that exist (set is only issued on those)
+	noSeal   bool     // seal/freeze excluded (see kinds table)
+	name     string
+	weight   int
+	callable bool
+	arrayish bool // Array.prototype methods are interesting
+	ordinary bool // spec-ordinary [[Set]]/[[Get]]… : full trap-sequence model applies
+	host     bool
+	noJSON   bool // JSON.stringify is not transparent by spec (internal slot) or key order is unspecified
+	badKeys  []string
+}
+
+var hugeIdx = []string{"4294967294", "4294967295", "5000", "-1"}
+
+// real arrays: index 2^32-2 makes length 2^32-1, and goja stringifies the whole array (join over the length) when it
+// builds the message of e.g. a failed strict delete — unbounded native work, outside this property
+var maxIdx = []string{"4294967294"}
+
+var kinds = []kindInfo{
+	{name: "plain", weight: 10, ordinary: true},
+	{name: "nullproto", weight: 5, ordinary: true},
+	{name: "inherits", weight: 6, ordinary: true},
+	// "caller": goja's inherited Function.prototype.caller getter answers by receiver (undefined for a sloppy function,
+	// TypeError for anything else) — legacy territory, not an essential-invariant matter: excluded
+	{name: "function", weight: 7, callable: true, ordinary: true, badKeys: []string{"caller"}},
+	{name: "strictfn", weight: 3, callable: true, ordinary: true, badKeys: []string{"caller"}},
+	{name: "arrow", weight: 2, callable: true, ordinary: true, badKeys: []string{"caller"}},
+	{name: "class", weight: 6, callable: true, ordinary: true, badKeys: []string{"caller"}},
+	{name: "dense", weight: 10, arrayish: true, ordinary: true, badKeys: maxIdx},
+	{name: "sparse", weight: 5, arrayish: true, ordinary: true, badKeys: maxIdx},
+	// arguments: Object.seal/freeze applied directly leaves the mapped elements configurable (goja defect outside
+	// proxy.go, reported in the inbox): seal/freeze excluded for this kind
+	{name: "args", weight: 5, arrayish: true, noSeal: true},
+	{name: "strictargs", weight: 3, arrayish: true, noSeal: true},
+	{name: "string", weight: 5, arrayish: true, noJSON: true},
+	// typed arrays: the inherited accessors length/@@toStringTag read an internal slot of the *receiver*, which is the
+	// proxy: not transparent by specification.  Array.prototype methods all start with Get(O, "length").
+	{name: "typed", weight: 5, badKeys: []string{"length", "@@toStringTag"}},
+	{name: "frozen", weight: 4, ordinary: true},
+	{name: "sealed", weight: 4, ordinary: true},
+	{name: "nonext", weight: 4, ordinary: true},
+	{name: "frozenarray", weight: 3, arrayish: true, ordinary: true, badKeys: maxIdx},
+	{name: "accessors", weight: 10, ordinary: true},
+	// Go wrappers: reduced alphabet (see hostOps): their own internal methods do not satisfy the essential invariants
+	// for define/delete/new keys (reported in the inbox), so only reads and writes to existing keys are in the domain
+	{name: "gomap", weight: 3, host: true, noJSON: true, hostKeys: []string{"a", "b"}},
+	{name: "goslice", weight: 3, host: true, arrayish: true, badKeys: hugeIdx, hostKeys: []string{"0", "1", "2"}},
+	{name: "gostruct", weight: 3, host: true, hostKeys: []string{"A", "B"}},
+	{name: "goreflectmap", weight: 2, host: true, noJSON: true, hostKeys: []string{"a", "b"}},
+	{name: "goreflectslice", weight: 2, host: true, arrayish: true, badKeys: hugeIdx, hostKeys: []string{"0", "1", "2"}},
+}
+
+func kindByName(n string) *kindInfo {
+	for i := range kinds {
+		if kinds[i].name == n {
+			return &kinds[i]
+		}
+	}
+	return &kinds[0]
+}
+
+var amOps = []string{"am/push", "am/pop", "am/shift", "am/unshift", "am/splice", "am/slice", "am/concat", "am/indexOf", "am/lastIndexOf", "am/includes", "am/join",
+	"am/reverse", "am/sort", "am/fill", "am/map", "am/filter", "am/forEach", "am/reduce", "am/find", "am/findIndex", "am/every", "am/some", "am/flat",
+	"am/copyWithin", "am/at", "am/keysIter", "am/entriesIter", "am/spreadArr", "am/from"}
+
+type opGroup struct {
+	weight int
+	names  []string
+}
+
+var opGroups = []opGroup{
+	{14, []string{"define/O", "define/R", "define/Os"}},
+	{10, []string{"get/S", "get/R", "get/Rr", "get/child"}},
+	{14, []string{"set/sloppy", "set/strict", "set/R", "set/Rr", "set/child"}},
+	{7, []string{"delete/sloppy", "delete/strict", "delete/R"}},
+	{6, []string{"has/in", "has/R", "has/child"}},
+	{5, []string{"hasOwn/p", "hasOwn/O", "hasOwn/pie"}},
+	{8, []string{"gopd/O", "gopd/R", "gopds/O"}},
+	{12, []string{"keys/R", "keys/names", "keys/symbols", "keys/O", "keys/values", "keys/entries", "keys/forin", "keys/spread", "keys/assignFrom", "keys/assignTo", "keys/json"}},
+	{8, []string{"pe/O", "pe/R", "seal/O", "freeze/O", "isExt/O", "isExt/R", "isSealed/O", "isFrozen/O"}},
+	{8, []string{"getProto/O", "getProto/R", "getProto/dunder", "getProto/isProtoOf", "setProto/O", "setProto/R", "setProto/dunder"}},
+	{3, []string{"isArray", "typeof", "instanceof/lhs", "instanceof/rhs"}},
+}
+
+// operations issued on Go wrapper targets
+var hostOps = []string{"get/S", "get/R", "get/Rr", "get/child", "has/in", "has/R", "has/child", "hasOwn/p", "hasOwn/O", "hasOwn/pie", "gopd/O", "gopd/R", "gopds/O",
+	"keys/R", "keys/names", "keys/symbols", "keys/O", "keys/values", "keys/entries", "keys/forin", "keys/spread", "keys/assignFrom",
+	"isExt/O", "isExt/R", "isSealed/O", "isFrozen/O", "getProto/O", "getProto/R", "getProto/dunder", "getProto/isProtoOf", "isArray", "typeof", "instanceof/lhs",
+	"set/sloppy", "set/strict", "set/R", "set/sloppy", "set/strict", "set/R"}
+var hostAmOps = []string{"am/indexOf", "am/lastIndexOf", "am/includes", "am/join", "am/slice", "am/concat", "am/map", "am/filter", "am/forEach", "am/reduce",
+	"am/find", "am/findIndex", "am/every", "am/some", "am/flat", "am/at", "am/keysIter", "am/entriesIter"}
+
+var callOps = []string{"call/S", "call/call", "call/R", "new/S", "new/R", "new/Rnt", "new/asNT"}
+
+func genDesc(r *core.Rng) *ldesc {
+	d := &ldesc{}
+	bits := r.Intn(64)
+	mode := r.Intn(20) // 0: invalid mix allowed; else data or accessor or generic
+	if bits&1 != 0 {
+		v := r.Intn(10)
+		d.V = &v
+	}
+	if bits&2 != 0 {
+		d.W = bp(r.Bool())
+	}
+	if bits&4 != 0 {
+		d.G = sp(core.Pick(r, []string{"lg", "fv", "und"}))
+	}
+	if bits&8 != 0 {
+		d.S = sp(core.Pick(r, []string{"ls", "und"}))
+	}
+	if bits&16 != 0 {
+		d.E = bp(r.Bool())
+	}
+	if bits&32 != 0 {
+		d.C = bp(r.Bool())
+	}
+	if mode != 0 && (d.V != nil || d.W != nil) && (d.G != nil || d.S != nil) {
+		if r.Bool() {
+			d.G, d.S = nil, nil
+		} else {
+			d.V, d.W = nil, nil
+		}
+	}
+	return d
+}
+
+func genKey(r *core.Rng, ki *kindInfo) *int {
+	for {
+		var k int
+		switch r.Intn(10) {
+		case 0, 1, 2: // a small hot set so that ops collide on the same keys
+			k = keyIdx(core.Pick(r, []string{"a", "b", "0", "1", "length", "@symA", "acc"}))
+		default:
+			k = r.Intn(len(lockKeyNames))
+		}
+		bad := false
+		for _, b := range ki.badKeys {
+			if lockKeyNames[k] == b {
+				bad = true
+			}
+		}
+		if !bad {
+			return &k
+		}
+	}
+}
+
+func genOp(r *core.Rng, ki *kindInfo) lockOp {
+	var name string
+	roll := r.Intn(100)
+	switch {
+	case ki.callable && roll < 14:
+		name = core.Pick(r, callOps)
+	case ki.arrayish && roll < 25:
+		name = core.Pick(r, amOps)
+	case roll < 3:
+		name = core.Pick(r, append(append([]string{}, callOps...), amOps...)) // also on non-callables / non-arrays
+	default:
+		w := make([]int, len(opGroups))
+		for i, g := range opGroups {
+			w[i] = g.weight
+		}
+		name = core.Pick(r, opGroups[r.PickW(w)].names)
+	}
+	if ki.host && os.Getenv("C11_HOSTFULL") == "" {
+		if ki.arrayish && roll < 30 {
+			name = core.Pick(r, hostAmOps)
+		} else {
+			name = core.Pick(r, hostOps)
+		}
+	}
+	if ki.noJSON && name == "keys/json" {
+		name = "keys/R"
+	}
+	if ki.name == "typed" && strings.HasPrefix(name, "am/") {
+		name = "keys/O"
+	}
+	if ki.noSeal && (name == "seal/O" || name == "freeze/O") {
+		name = "pe/O"
+	}
+	if ki.name == "string" && (name == "am/from" || name == "am/spreadArr") {
+		name = "am/keysIter" // String.prototype[@@iterator] needs the [[StringData]] slot of its receiver: not transparent by specification
+	}
+	op := lockOp{Op: name}
+	op.K = genKey(r, ki)
+	op.A = []int{r.Intn(16), r.Intn(16)}
+	if ki.host && strings.HasPrefix(name, "set/") && os.Getenv("C11_HOSTFULL") == "" {
+		k := keyIdx(core.Pick(r, ki.hostKeys))
+		op.K = &k
+		op.A = []int{core.Pick(r, []int{0, 1, 10, 12}), 0} // small integers: assignable to every element type used
+		if ki.name == "gostruct" && lockKeyNames[k] == "B" || ki.name == "gomap" {
+			op.A[0] = core.Pick(r, []int{0, 1, 2, 11})
+		}
+	}
+	if ki.noSeal && strings.HasPrefix(name, "define/") && (lockKeyNames[*op.K] == "0" || lockKeyNames[*op.K] == "1") {
+		// arguments objects: attributes given to a (mapped) element by a direct defineProperty are not honoured by
+		// goja (reported in the inbox): elements are not redefined in this kind
+		k := keyIdx("a")
+		op.K = &k
+	}
+	if ki.arrayish && ki.ordinary && (strings.HasPrefix(name, "set/") || name == "keys/assignTo") && lockKeyNames[*op.K] == "length" {
+		// a real array whose length is read-only answers an invalid length with RangeError when assigned directly
+		// (goja checks the value first; spec: OrdinarySet fails first) — array territory (C07), reported in the inbox
+		op.A[0] = core.Pick(r, []int{0, 1, 10, 12, 4})
+	}
+	if strings.HasPrefix(name, "define/") {
+		op.D = genDesc(r)
+		if ki.noSeal {
+			// arguments objects: enumerability given to an element by defineProperty is ignored by goja's direct enumeration
+			// (JSON/keys still list it) — a defect of the arguments object, reported in the inbox; not generated here
+			op.D.E = nil
+		}
+	}
+	if strings.HasSuffix(name, "/Rr") {
+		op.R = core.Pick(r, []string{"self", "child", "recvA", "protoX", "prim", "null"})
+	}
+	if strings.HasPrefix(name, "setProto/") || name == "getProto/isProtoOf" {
+		op.P = core.Pick(r, []string{"protoX", "protoY", "null", "recvA", "arrayProto", "fnProto", "objProto", "prim"})
+	}
+	if name == "instanceof/lhs" {
+		op.C = core.Pick(r, []string{"Array", "Object", "Function", "ctorF"})
+	}
+	if strings.HasPrefix(name, "am/") {
+		op.N = []int{r.Range(-2, 4), r.Range(-2, 5)}
+		op.F = r.Intn(6)
+		if op.F == 4 {
+			// callback 4 punches a hole while the method runs; goja's generic methods then differ between array and proxy
+			// receivers because they never ask HasProperty (known finding C11-array-methods-no-has)
+			op.F = 3
+		}
+		if ki.host {
+			op.F = r.Intn(4)
+			op.A = []int{core.Pick(r, []int{0, 1, 2, 10, 12}), core.Pick(r, []int{0, 1, 2, 10})} // values a Go slice of any element type can hold
+		}
+	}
+	return op
+}
+
+func genLock(c *core.Ctx) lockCase {
+	r := c.Rng
+	w := make([]int, len(kinds))
+	for i, k := range kinds {
+		w[i] = k.weight
+	}
+	ki := &kinds[r.PickW(w)]
+	layers := 1 + r.PickW([]int{3, 4, 3})
+	var hs []string
+	switch r.PickW([]int{5, 3, 2}) {
+	case 0:
+		for i := 0; i < layers; i++ {
+			hs = append(hs, "js")
+		}
+	case 1:
+		for i := 0; i < layers; i++ {
+			hs = append(hs, "go")
+		}
+	default:
+		for i := 0; i < layers; i++ {
+			hs = append(hs, core.Pick(r, []string{"js", "go"}))
+		}
+	}
+	n := r.Range(5, 40)
+	lc := lockCase{Kind: ki.name, Handlers: hs}
+	for i := 0; i < n; i++ {
+		lc.Ops = append(lc.Ops, genOp(r, ki))
+	}
+	return lc
+}
+
+// ---------------------------------------------------------------------------------------------------
+// host objects and Go-handler layers
+// ---------------------------------------------------------------------------------------------------
+
+type hostStruct struct {
+	A int
+	B string
+}
+
+// (no methods: objectGoReflect reports a method as a non-writable, non-configurable data property but returns a fresh
+// function object on every read — an essential-invariant violation of the wrapper itself, reported in the inbox)
+
+func hostObject(r *goja.Runtime, kind string) goja.Value {
+	switch kind {
+	case "gomap":
+		return r.ToValue(map[string]interface{}{"a": 1, "b": "x"})
+	case "goslice":
+		return r.ToValue([]interface{}{1, 2, 3})
+	case "gostruct":
+		return r.ToValue(&hostStruct{A: 1, B: "x"})
+	case "goreflectmap":
+		return r.ToValue(map[string]int{"a": 1, "b": 2})
+	case "goreflectslice":
+		return r.ToValue([]int{1, 2, 3})
+	}
+	panic(r.NewTypeError("c11: unknown host kind " + kind))
+}
+
+var canonIntRe = regexp.MustCompile(`^(0|-?[1-9][0-9]{0,14})$`)
+
+// goForwardLayer builds new Proxy(target, <Go ProxyTrapConfig>) whose 13 traps (all key variants) forward to the
+// corresponding operation on the target: Object.Prototype() directly, everything else through the Reflect functions
+// obtained and invoked through the Go API (the Go API has no boolean-returning / receiver-taking equivalents).
+func goForwardLayer(r *goja.Runtime, target *goja.Object, logFn, badFn goja.Callable) goja.Value {
+	refl := r.Get("Reflect").ToObject(r)
+	rf := func(name string) goja.Callable {
+		f, ok := goja.AssertFunction(refl.Get(name))
+		if !ok {
+			panic(r.NewTypeError("c11: Reflect." + name + " missing"))
+		}
+		return f
+	}
+	call := func(f goja.Callable, args ...goja.Value) goja.Value {
+		v, err := f(goja.Undefined(), args...)
+		if err != nil {
+			rethrow(err)
+		}
+		return valOrUndef(v)
+	}
+	log := func(trap string, key goja.Value) {
+		if key == nil {
+			call(logFn, r.ToValue(trap), goja.Undefined(), r.ToValue(false))
+		} else {
+			call(logFn, r.ToValue(trap), key, r.ToValue(true))
+		}
+	}
+	chkStr := func(trap, key string) {
+		if canonIntRe.MatchString(key) {
+			call(badFn, r.ToValue(fmt.Sprintf("Go ProxyTrapConfig: string variant of %s received the canonical integer key %q although the integer variant is installed", trap, key)))
+		}
+	}
+	chkTarget := func(trap string, t *goja.Object) {
+		if t != target {
+			call(badFn, r.ToValue("Go ProxyTrapConfig: trap "+trap+" received a different target"))
+		}
+	}
+	var (
+		rSetProto = rf("setPrototypeOf")
+		rIsExt    = rf("isExtensible")
+		rPE       = rf("preventExtensions")
+		rGOPD     = rf("getOwnPropertyDescriptor")
+		rDefine   = rf("defineProperty")
+		rHas      = rf("has")
+		rGet      = rf("get")
+		rSet      = rf("set")
+		rDelete   = rf("deleteProperty")
+		rOwnKeys  = rf("ownKeys")
+		rApply    = rf("apply")
+		rConstr   = rf("construct")
+	)
+	s := func(x string) goja.Value { return r.ToValue(x) }
+	ix := func(i int) goja.Value { return r.ToValue(strconv.Itoa(i)) }
+	cfg := &goja.ProxyTrapConfig{
+		GetPrototypeOf: func(t *goja.Object) *goja.Object { chkTarget("getPrototypeOf", t); log("getPrototypeOf", nil); return t.Prototype() },
+		SetPrototypeOf: func(t *goja.Object, p *goja.Object) bool {
+			log("setPrototypeOf", nil)
+			return call(rSetProto, t, protoVal(p)).ToBoolean()
+		},
+		IsExtensible:      func(t *goja.Object) bool { log("isExtensible", nil); return call(rIsExt, t).ToBoolean() },
+		PreventExtensions: func(t *goja.Object) bool { log("preventExtensions", nil); return call(rPE, t).ToBoolean() },
+
+		GetOwnPropertyDescriptor: func(t *goja.Object, p string) goja.PropertyDescriptor {
+			chkStr("getOwnPropertyDescriptor", p)
+			chkTarget("getOwnPropertyDescriptor", t)
+			log("getOwnPropertyDescriptor", s(p))
+			return pdFromValue(call(rGOPD, t, s(p)))
+		},
+		GetOwnPropertyDescriptorIdx: func(t *goja.Object, p int) goja.PropertyDescriptor {
+			log("getOwnPropertyDescriptor", ix(p))
+			return pdFromValue(call(rGOPD, t, ix(p)))
+		},
+		GetOwnPropertyDescriptorSym: func(t *goja.Object, p *goja.Symbol) goja.PropertyDescriptor {
+			log("getOwnPropertyDescriptor", p)
+			return pdFromValue(call(rGOPD, t, p))
+		},
+		DefineProperty: func(t *goja.Object, p string, d goja.PropertyDescriptor) bool {
+			chkStr("defineProperty", p)
+			log("defineProperty", s(p))
+			return call(rDefine, t, s(p), pdToObject(r, d)).ToBoolean()
+		},
+		DefinePropertyIdx: func(t *goja.Object, p int, d goja.PropertyDescriptor) bool {
+			log("defineProperty", ix(p))
+			return call(rDefine, t, ix(p), pdToObject(r, d)).ToBoolean()
+		},
+		DefinePropertySym: func(t *goja.Object, p *goja.Symbol, d goja.PropertyDescriptor) bool {
+			log("defineProperty", p)
+			return call(rDefine, t, p, pdToObject(r, d)).ToBoolean()
+		},
+		Has:    func(t *goja.Object, p string) bool { chkStr("has", p); log("has", s(p)); return call(rHas, t, s(p)).ToBoolean() },
+		HasIdx: func(t *goja.Object, p int) bool { log("has", ix(p)); return call(rHas, t, ix(p)).ToBoolean() },
+		HasSym: func(t *goja.Object, p *goja.Symbol) bool { log("has", p); return call(rHas, t, p).ToBoolean() },
+		Get: func(t *goja.Object, p string, rc goja.Value) goja.Value {
+			chkStr("get", p)
+			chkTarget("get", t)
+			log("get", s(p))
+			return call(rGet, t, s(p), valOrUndef(rc))
+		},
+		GetIdx: func(t *goja.Object, p int, rc goja.Value) goja.Value { log("get", ix(p)); return call(rGet, t, ix(p), valOrUndef(rc)) },
+		GetSym: func(t *goja.Object, p *goja.Symbol, rc goja.Value) goja.Value { log("get", p); return call(rGet, t, p, valOrUndef(rc)) },
+		Set: func(t *goja.Object, p string, v, rc goja.Value) bool {
+			chkStr("set", p)
+			log("set", s(p))
+			return call(rSet, t, s(p), valOrUndef(v), valOrUndef(rc)).ToBoolean()
+		},
+		SetIdx: func(t *goja.Object, p int, v, rc goja.Value) bool {
+			log("set", ix(p))
+			return call(rSet, t, ix(p), valOrUndef(v), valOrUndef(rc)).ToBoolean()
+		},
+		SetSym: func(t *goja.Object, p *goja.Symbol, v, rc goja.Value) bool {
+			log("set", p)
+			return call(rSet, t, p, valOrUndef(v), valOrUndef(rc)).ToBoolean()
+		},
+		DeleteProperty: func(t *goja.Object, p string) bool {
+			chkStr("deleteProperty", p)
+			log("deleteProperty", s(p))
+			return call(rDelete, t, s(p)).ToBoolean()
+		},
+		DeletePropertyIdx: func(t *goja.Object, p int) bool { log("deleteProperty", ix(p)); return call(rDelete, t, ix(p)).ToBoolean() },
+		DeletePropertySym: func(t *goja.Object, p *goja.Symbol) bool { log("deleteProperty", p); return call(rDelete, t, p).ToBoolean() },
+		OwnKeys: func(t *goja.Object) *goja.Object {
+			log("ownKeys", nil)
+			return call(rOwnKeys, t).ToObject(r)
+		},
+		Apply: func(t *goja.Object, this goja.Value, args []goja.Value) goja.Value {
+			log("apply", nil)
+			return call(rApply, t, valOrUndef(this), r.NewArray(valuesToIfaces(args)...))
+		},
+		Construct: func(t *goja.Object, args []goja.Value, nt *goja.Object) *goja.Object {
+			log("construct", nil)
+			return call(rConstr, t, r.NewArray(valuesToIfaces(args)...), protoVal(nt)).ToObject(r)
+		},
+	}
+	return r.ToValue(r.NewProxy(target, cfg))
+}
+
+// ---------------------------------------------------------------------------------------------------
+// execution and comparison
+// ---------------------------------------------------------------------------------------------------
+
+type seqFacts struct {
+	Ext   bool      `json:"ext"`
+	Proto string    `json:"proto"`
+	Own   bool      `json:"own"`
+	Chain string    `json:"chain"`
+	Desc  *factDesc `json:"desc"`
+}
+
+type sideRec struct {
+	Out  string    `json:"out"`
+	Log  string    `json:"log"`
+	Dump string    `json:"dump"`
+	Tlog string    `json:"tlog"`
+	Bad  string    `json:"bad"`
+	// world A only: essential-invariant violations of the direct target between before and after the op
+	Insane string `json:"insane"`
+	Pre  *seqFacts `json:"pre"`
+	Post *seqFacts `json:"post"`
+}
+
+type stepRec struct {
+	I    int      `json:"i"`
+	Skip string   `json:"skip"`
+	A    *sideRec `json:"a"`
+	B    *sideRec `json:"b"`
+}
+
+type lockOut struct {
+	Recs   []stepRec      `json:"recs"`
+	Tcount map[string]int `json:"tcount"`
+	AuditA string         `json:"auditA"`
+	AuditB string         `json:"auditB"`
+}
+
+type lockViolation struct {
+	monitor string
+	class   string
+	detail  string
+	at      int // index of the op at which it was seen (-1: initial state)
+}
+
+type lockResult struct {
+	viol     *lockViolation
+	inc      string
+	incWhy   string
+	executed int
+	seqChk   int
+	out      *lockOut
+}
+
+func outKind(s string) string {
+	if strings.HasPrefix(s, "throw:") {
+		return s
+	}
+	return "ok"
+}
+
+func firstDiff(a, b string) string {
+	n := len(a)
+	if len(b) < n {
+		n = len(b)
+	}
+	i := 0
+	for i < n && a[i] == b[i] {
+		i++
+	}
+	lo := i - 60
+	if lo < 0 {
+		lo = 0
+	}
+	cut := func(s string) string {
+		hi := i + 100
+		if hi > len(s) {
+			hi = len(s)
+		}
+		if lo > len(s) {
+			return ""
+		}
+		return s[lo:hi]
+	}
+	return fmt.Sprintf("first difference at byte %d: target …%s… vs proxy …%s…", i, cut(a), cut(b))
+}
+
+func execLock(lc *lockCase, st *core.Stats) lockResult {
+	r, api := newRT()
+	fn, _ := goja.AssertFunction(api.Get("lockRun"))
+	b, _ := json.Marshal(lc)
+	host := func(call goja.FunctionCall) goja.Value { return hostObject(r, call.Argument(0).String()) }
+	goLayer := func(call goja.FunctionCall) goja.Value {
+		logFn, _ := goja.AssertFunction(call.Argument(2))
+		badFn, _ := goja.AssertFunction(call.Argument(3))
+		return goForwardLayer(r, call.Argument(0).ToObject(r), logFn, badFn)
+	}
+	o := gj.Call(func() (goja.Value, error) { return fn(goja.Undefined(), r.ToValue(string(b)), r.ToValue(host), r.ToValue(goLayer)) })
+	switch {
+	case o.Panic != nil:
+		return lockResult{viol: &lockViolation{"go-panic-escaped", "panic:" + firstLine(fmt.Sprint(o.Panic)), fmt.Sprintf("Go panic escaped: %v\n%s", o.Panic, core.Trunc(o.PanicStack, 2500)), -2}}
+	case o.Assertion != nil:
+		return lockResult{viol: &lockViolation{"verif-assertion", o.Assertion.Hook, o.Assertion.Error(), len(lc.Ops) - 1}}
+	case o.Fuel:
+		return lockResult{inc: "fuel"}
+	case o.Err != nil:
+		if k := gj.ErrKind(o.Err); k == "stackoverflow" {
+			return lockResult{inc: "stackoverflow"}
+		}
+		return lockResult{viol: &lockViolation{"harness-error", "prelude", "lock-step driver threw: " + o.Err.Error(), len(lc.Ops) - 1}}
+	}
+	var out lockOut
+	if err := json.Unmarshal([]byte(o.Val.String()), &out); err != nil {
+		return lockResult{viol: &lockViolation{"harness-error", "json", "bad record: " + err.Error(), 0}}
+	}
+	res := lockResult{out: &out}
+	if why := gj.IdleProblem(r, false); why != "" {
+		res.viol = &lockViolation{"vm-not-idle", "idle:" + why, "VM registers not idle after the sequence: " + why, len(lc.Ops) - 1}
+		return res
+	}
+	ki := kindByName(lc.Kind)
+	for _, rec := range out.Recs {
+		if rec.Skip != "" {
+			if st != nil {
+				st.Inc("lock:ops_skipped:" + rec.Skip)
+			}
+			continue
+		}
+		a, bb := rec.A, rec.B
+		opn := "<initial state>"
+		var op *lockOp
+		if rec.I >= 0 {
+			op = &lc.Ops[rec.I]
+			opn = op.Op
+			res.executed++
+			if st != nil {
+				st.Inc("lock:op:" + opn)
+				st.Inc("lock:outcome:" + outKind(a.Out))
+			}
+		}
+		fail := func(mon, class, detail string) lockResult {
+			if mon != "trap-sequence" && mon != "native-trap-variant" && (out.AuditA != "" || out.AuditB != "") {
+				// the target does not agree with itself (see prelude.js audit): the divergence is the target's, not the proxy's
+				au := out.AuditA
+				if au == "" {
+					au = out.AuditB
+				}
+				res.inc, res.incWhy = "target-breaks-essential-invariants", fmt.Sprintf("kind=%s after op=%s (%s): target audit: %s", lc.Kind, opJSON(op), mon, core.Trunc(au, 200))
+				return res
+			}
+			res.viol = &lockViolation{mon, class, fmt.Sprintf("at op #%d %s: %s", rec.I, opJSON(op), detail), rec.I}
+			return res
+		}
+		if bb.Bad != "" {
+			return fail("native-trap-variant", "bad:"+opn, bb.Bad)
+		}
+		// a direct target whose own answers break the essential invariants (ES §6.1.7.3) cannot be mirrored by a
+		// conforming proxy: not a C11 matter (C04/C07/C13 own it) — recorded, and the case ends inconclusive
+		if why := a.Insane; why != "" {
+			res.inc, res.incWhy = "target-breaks-essential-invariants", fmt.Sprintf("kind=%s op=%s: %s", lc.Kind, opJSON(op), why)
+			return res
+		}
+		if op != nil {
+			if why := targetSelfCheck(op, a); why != "" {
+				res.inc, res.incWhy = "target-breaks-essential-invariants", fmt.Sprintf("kind=%s op=%s result %s: %s", lc.Kind, opJSON(op), a.Out, why)
+				return res
+			}
+		}
+		if a.Out != bb.Out {
+			return fail("lockstep-outcome", fmt.Sprintf("%s target=%s proxy=%s", opn, outKind(a.Out), outKind(bb.Out)), fmt.Sprintf("on the target: %s; through the proxy: %s", a.Out, bb.Out))
+		}
+		// goja builds the message of many TypeErrors by stringifying the object (which runs user-visible getters such as
+		// @@toStringTag or array elements); the proxy path fails with a different message.  The log of a *throwing* op is
+		// therefore compared only up to that noise: not at all.
+		if a.Log != bb.Log && !strings.HasPrefix(a.Out, "throw:") {
+			return fail("lockstep-accessor-log", opn, fmt.Sprintf("accessor/call log on the target: [%s]; through the proxy: [%s]", a.Log, bb.Log))
+		}
+		if a.Dump != bb.Dump {
+			return fail("lockstep-state", opn, "state of target/auxiliary objects differs after the op: "+firstDiff(a.Dump, bb.Dump))
+		}
+		if op != nil && ki.ordinary {
+			if exp, ok := expectedTraps(lc, op, a.Out, bb); ok {
+				res.seqChk++
+				if st != nil {
+					st.Inc("lock:seqcheck:" + strings.Split(opn, "/")[0])
+				}
+				if exp != bb.Tlog {
+					return fail("trap-sequence", opn+" "+seqDiffClass(exp, bb.Tlog), fmt.Sprintf("trap calls prescribed by ES §10.5 for this op: [%s]; observed: [%s] (facts before: %+v after: %+v, result %s)", exp, bb.Tlog, *bb.Pre, *bb.Post, a.Out))
+				}
+			}
+		}
+	}
+	return res
+}
+
+var valsRender = []string{"n:1", "n:2", `s:"x"`, "und", "null", "n:-0", "n:NaN", "b:true", "ov1", "fv", "n:4", `s:"7"`, "n:0", "n:1.5", "n:-1", "n:4294967296"}
+var protoRender = map[string]string{"protoX": "protoX", "protoY": "protoY", "null": "null", "recvA": "recvA", "arrayProto": "%Array.prototype%",
+	"fnProto": "%Function.prototype%", "objProto": "%Object.prototype%"}
+
+func (d *ldesc) desc() proxyref.Desc {
+	var r proxyref.Desc
+	if d == nil {
+		return r
+	}
+	if d.V != nil {
+		r.HasValue, r.Value = true, proxyref.Val(valsRender[*d.V])
+	}
+	if d.W != nil {
+		r.HasWritable, r.Writable = true, *d.W
+	}
+	if d.G != nil {
+		r.HasGet, r.Get = true, proxyref.Val(*d.G)
+	}
+	if d.S != nil {
+		r.HasSet, r.Set = true, proxyref.Val(*d.S)
+	}
+	if d.E != nil {
+		r.HasEnumerable, r.Enumerable = true, *d.E
+	}
+	if d.C != nil {
+		r.HasConfigurable, r.Configurable = true, *d.C
+	}
+	return r
+}
+
+// targetSelfCheck treats the answer the *direct* target gave to a single-internal-method op as if it were a trap
+// result and asks proxyref whether ES §10.5 would reject it given the target's own state afterwards.  If so, the
+// target is inconsistent with itself (or the op is one where the specification makes proxies non-transparent,
+// e.g. defining an array length from a string) and a forwarding proxy must diverge.
+func targetSelfCheck(op *lockOp, a *sideRec) string {
+	if a.Post == nil || strings.HasPrefix(a.Out, "throw:") {
+		return ""
+	}
+	post := a.Post
+	b, isBool := boolOut(a.Out)
+	var o proxyref.Outcome
+	switch op.Op {
+	case "get/S", "get/R":
+		o = proxyref.Get(proxyref.Val(strings.TrimPrefix(a.Out, "ok:")), post.Desc.desc())
+	case "set/R":
+		if !isBool || len(op.A) == 0 {
+			return ""
+		}
+		o = proxyref.Set(proxyref.Val(valsRender[op.A[0]]), b, post.Desc.desc())
+	case "has/R", "has/in":
+		if !isBool {
+			return ""
+		}
+		o = proxyref.HasProperty(b, post.Desc.desc(), post.Ext)
+	case "delete/R", "delete/sloppy":
+		if !isBool {
+			return ""
+		}
+		o = proxyref.Delete(b, post.Desc.desc(), post.Ext)
+	case "define/R":
+		if !isBool || op.D == nil {
+			return ""
+		}
+		d := op.D.desc()
+		if d.Invalid() {
+			return ""
+		}
+		o = proxyref.DefineOwnProperty(d, b, post.Desc.desc(), post.Ext)
+	case "define/O", "define/Os":
+		if op.D == nil {
+			return ""
+		}
+		d := op.D.desc()
+		if d.Invalid() {
+			return ""
+		}
+		o = proxyref.DefineOwnProperty(d, true, post.Desc.desc(), post.Ext)
+	case "pe/R":
+		if !isBool {
+			return ""
+		}
+		o = proxyref.PreventExtensions(b, post.Ext)
+	case "pe/O":
+		o = proxyref.PreventExtensions(true, post.Ext)
+	case "isExt/R", "isExt/O":
+		if !isBool {
+			return ""
+		}
+		o = proxyref.IsExtensible(b, post.Ext)
+	case "setProto/R":
+		pr, ok := protoRender[op.P]
+		if !isBool || !ok {
+			return ""
+		}
+		o = proxyref.SetPrototypeOf(proxyref.Val(pr), b, post.Ext, proxyref.Val(post.Proto))
+	case "set/strict", "set/sloppy":
+		// a completed strict assignment means [[Set]] returned true; a sloppy one tells nothing
+		if op.Op == "set/strict" && len(op.A) > 0 {
+			o = proxyref.Set(proxyref.Val(valsRender[op.A[0]]), true, post.Desc.desc())
+		}
+	}
+	if o.TypeError {
+		return "the target's own answer would be rejected by the proxy invariants: " + o.Why
+	}
+	return ""
+}
+
+func firstLine(s string) string {
+	if i := strings.IndexByte(s, '\n'); i >= 0 {
+		return s[:i]
+	}
+	return s
+}
+
+func opJSON(op *lockOp) string {
+	if op == nil {
+		return ""
+	}
+	b, _ := json.Marshal(op)
+	s := string(b)
+	if op.K != nil {
+		s += " (key " + lockKeyNames[*op.K] + ")"
+	}
+	return s
+}
+
+// seqDiffClass: a stable description of how the observed trap log deviates (which trap is extra/missing first)
+func seqDiffClass(exp, got string) string {
+	e := strings.Split(exp, ",")
+	g := strings.Split(got, ",")
+	strip := func(s string) string { // "1:get:s:"a"" -> "1:get"
+		p := strings.SplitN(s, ":", 3)
+		if len(p) >= 2 {
+			return p[0] + ":" + p[1]
+		}
+		return s
+	}
+	for i := 0; i < len(e) || i < len(g); i++ {
+		var x, y string
+		if i < len(e) {
+			x = strip(e[i])
+		}
+		if i < len(g) {
+			y = strip(g[i])
+		}
+		if x != y {
+			return fmt.Sprintf("pos %d: expected %q observed %q", i, x, y)
+		}
+	}
+	return "keys differ"
+}
+
+// ---------------------------------------------------------------------------------------------------
+// trap-sequence model (ES2023 §10.5.1–10.5.11, all-forwarding handlers, n layers over an ordinary target)
+// ---------------------------------------------------------------------------------------------------
+
+type seqGen struct {
+	n   int
+	key string
+	out []string
+}
+
+func (g *seqGen) t(i int, trap string, keyed bool) {
+	s := fmt.Sprintf("%d:%s", i, trap)
+	if keyed {
+		s += ":" + g.key
+	}
+	g.out = append(g.out, s)
+}
+
+// [[IsExtensible]] of layer i (10.5.3): trap, (forward), target.[[IsExtensible]]
+func (g *seqGen) isExt(i int) {
+	if i >= g.n {
+		return
+	}
+	g.t(i, "isExtensible", false)
+	g.isExt(i + 1) // Reflect.isExtensible(target) inside the trap
+	g.isExt(i + 1) // step 8: IsExtensible(target)
+}
+
+// [[GetPrototypeOf]] (10.5.1): trap, forward, IsExtensible(target), if non-extensible target.[[GetPrototypeOf]]
+func (g *seqGen) getProto(i int, ext bool) {
+	if i >= g.n {
+		return
+	}
+	g.t(i, "getPrototypeOf", false)
+	g.getProto(i+1, ext)
+	g.isExt(i + 1)
+	if !ext {
+		g.getProto(i+1, ext)
+	}
+}
+
+// [[SetPrototypeOf]] (10.5.2)
+func (g *seqGen) setProto(i int, result, extAfter bool) {
+	if i >= g.n {
+		return
+	}
+	g.t(i, "setPrototypeOf", false)
+	g.setProto(i+1, result, extAfter)
+	if !result {
+		return
+	}
+	g.isExt(i + 1)
+	if !extAfter {
+		g.getProto(i+1, extAfter)
+	}
+}
+
+// [[PreventExtensions]] (10.5.4)
+func (g *seqGen) preventExt(i int, result bool) {
+	if i >= g.n {
+		return
+	}
+	g.t(i, "preventExtensions", false)
+	g.preventExt(i+1, result)
+	if result {
+		g.isExt(i + 1)
+	}
+}
+
+// [[GetOwnProperty]] (10.5.5): trap, forward, target.[[GetOwnProperty]], then IsExtensible(target) unless both undefined
+func (g *seqGen) gopd(i int, present bool) {
+	if i >= g.n {
+		return
+	}
+	g.t(i, "getOwnPropertyDescriptor", true)
+	g.gopd(i+1, present)
+	g.gopd(i+1, present)
+	if present {
+		g.isExt(i + 1)
+	}
+}
+
+// [[DefineOwnProperty]] (10.5.6)
+func (g *seqGen) define(i int, result, presentAfter bool) {
+	if i >= g.n {
+		return
+	}
+	g.t(i, "defineProperty", true)
+	g.define(i+1, result, presentAfter)
+	if !result {
+		return
+	}
+	g.gopd(i+1, presentAfter)
+	g.isExt(i + 1)
+}
+
+// [[HasProperty]] (10.5.7): an honest false means the target has no such own property
+func (g *seqGen) has(i int, result bool) {
+	if i >= g.n {
+		return
+	}
+	g.t(i, "has", true)
+	g.has(i+1, result)
+	if !result {
+		g.gopd(i+1, false)
+	}
+}
+
+// [[Get]] (10.5.8)
+func (g *seqGen) get(i int, own bool) {
+	if i >= g.n {
+		return
+	}
+	g.t(i, "get", true)
+	g.get(i+1, own)
+	g.gopd(i+1, own)
+}
+
+// [[Delete]] (10.5.10): after an honest true the property is gone
+func (g *seqGen) del(i int, result bool) {
+	if i >= g.n {
+		return
+	}
+	g.t(i, "deleteProperty", true)
+	g.del(i+1, result)
+	if !result {
+		return
+	}
+	g.gopd(i+1, false)
+}
+
+// [[Set]] (10.5.9) down to OrdinarySet on the real target (10.1.9.2) with receiver steps when the receiver is the outermost proxy
+func (g *seqGen) set(i int, result bool, pre, post *seqFacts, recvIsSubject, recvIsObject bool) {
+	if i >= g.n {
+		switch pre.Chain {
+		case "none", "dataW":
+			if recvIsSubject {
+				g.gopd(0, pre.Own)                // Receiver.[[GetOwnProperty]](P)
+				g.define(0, result, post.Own) // Receiver.[[DefineOwnProperty]] / CreateDataProperty
+			}
+		}
+		return
+	}
+	g.t(i, "set", true)
+	g.set(i+1, result, pre, post, recvIsSubject, recvIsObject)
+	if !result {
+		return
+	}
+	g.gopd(i+1, post.Own)
+}
+
+func boolOut(out string) (bool, bool) {
+	switch out {
+	case "ok:b:true":
+		return true, true
+	case "ok:b:false":
+		return false, true
+	}
+	return false, false
+}
+
+// expectedTraps returns the prescribed trap log for ops that are exactly one internal method on the subject.
+func expectedTraps(lc *lockCase, op *lockOp, out string, b *sideRec) (string, bool) {
+	if strings.HasPrefix(out, "throw:") || b.Pre == nil || b.Post == nil {
+		// a throwing op may have been cut short anywhere; only the non-throwing shapes are modelled — except the
+		// issuers that throw *because* the internal method returned false (handled below)
+		if !(out == "throw:TypeError" && (op.Op == "define/O" || op.Op == "define/Os" || op.Op == "set/strict" || op.Op == "delete/strict" || op.Op == "pe/O" || op.Op == "setProto/O")) {
+			return "", false
+		}
+	}
+	g := &seqGen{n: len(lc.Handlers)}
+	if op.K != nil {
+		k := lockKeyNames[*op.K]
+		switch {
+		case strings.HasPrefix(k, "@@"):
+			g.key = k
+		case strings.HasPrefix(k, "@"):
+			g.key = k[1:]
+		default:
+			q, _ := json.Marshal(k)
+			g.key = "s:" + string(q)
+		}
+	}
+	pre, post := b.Pre, b.Post
+	res, isBool := boolOut(out)
+	switch op.Op {
+	case "get/S", "get/R", "get/Rr":
+		g.get(0, pre.Own)
+	case "has/in", "has/R":
+		if !isBool {
+			return "", false
+		}
+		g.has(0, res)
+	case "hasOwn/p", "hasOwn/O", "hasOwn/pie", "gopd/O", "gopd/R":
+		g.gopd(0, pre.Own)
+	case "delete/R", "delete/sloppy":
+		if !isBool {
+			return "", false
+		}
+		g.del(0, res)
+	case "delete/strict":
+		g.del(0, out == "ok:b:true")
+	case "define/R":
+		if !isBool {
+			return "", false
+		}
+		g.define(0, res, post.Own)
+	case "define/O", "define/Os":
+		// TypeError here can also come from ToPropertyDescriptor (before any trap) — only an accepted define is modelled,
+		// and a rejected one when the descriptor is well-formed
+		if out == "throw:TypeError" {
+			if op.D == nil || ((op.D.V != nil || op.D.W != nil) && (op.D.G != nil || op.D.S != nil)) {
+				return "", false
+			}
+			g.define(0, false, post.Own)
+		} else {
+			g.define(0, true, post.Own)
+		}
+	case "set/R", "set/Rr", "set/sloppy", "set/strict":
+		recv := op.R
+		if op.Op != "set/Rr" || recv == "" {
+			recv = "self"
+		}
+		var result bool
+		switch op.Op {
+		case "set/R", "set/Rr":
+			if !isBool {
+				return "", false
+			}
+			result = res
+		case "set/strict":
+			result = out != "throw:TypeError"
+		default:
+			// sloppy assignment hides the boolean result of [[Set]]: accept the log prescribed for either result
+			gt := &seqGen{n: g.n, key: g.key}
+			gt.set(0, true, pre, post, true, true)
+			gf := &seqGen{n: g.n, key: g.key}
+			gf.set(0, false, pre, post, true, true)
+			if st, sf := strings.Join(gt.out, ","), strings.Join(gf.out, ","); b.Tlog == sf {
+				return sf, true
+			} else {
+				return st, true
+			}
+		}
+		g.set(0, result, pre, post, recv == "self", recv != "prim" && recv != "null")
+	case "pe/R":
+		if !isBool {
+			return "", false
+		}
+		g.preventExt(0, res)
+	case "pe/O":
+		g.preventExt(0, out != "throw:TypeError")
+	case "isExt/O", "isExt/R":
+		g.isExt(0)
+	case "getProto/O", "getProto/R":
+		g.getProto(0, pre.Ext)
+	case "setProto/R":
+		if !isBool {
+			return "", false
+		}
+		g.setProto(0, res, post.Ext)
+	case "setProto/O":
+		if op.P == "prim" {
+			return "", false // TypeError before any trap
+		}
+		g.setProto(0, out != "throw:TypeError", post.Ext)
+	case "keys/R", "keys/names", "keys/symbols":
+		// only the per-layer prefix: every layer's ownKeys trap runs (outermost first) before anything else
+		var pfx []string
+		for i := 0; i < g.n; i++ {
+			pfx = append(pfx, fmt.Sprintf("%d:ownKeys", i))
+		}
+		want := strings.Join(pfx, ",")
+		if strings.HasPrefix(b.Tlog+",", want+",") {
+			return b.Tlog, true
+		}
+		return want + ",…", true
+	default:
+		return "", false
+	}
+	return strings.Join(g.out, ","), true
+}
+
+// ---------------------------------------------------------------------------------------------------
+// minimisation
+// ---------------------------------------------------------------------------------------------------
+
+func sameFailure(a, b *lockViolation) bool {
+	return a != nil && b != nil && a.monitor == b.monitor && a.class == b.class
+}
+
+func cloneCase(lc *lockCase) lockCase {
+	b, _ := json.Marshal(lc)
+	var c lockCase
+	json.Unmarshal(b, &c)
+	return c
+}
+
+var canonIssuer = map[string]string{
+	"define": "define/R", "get": "get/R", "set": "set/R", "delete": "delete/R", "has": "has/R", "hasOwn": "gopd/R", "gopd": "gopd/R",
+	"keys": "keys/R", "pe": "pe/R", "isExt": "isExt/R", "getProto": "getProto/R", "setProto": "setProto/R", "call": "call/R", "new": "new/R",
+}
+
+func minimiseLock(lc lockCase, v *lockViolation, budget int) (lockCase, *lockViolation) {
+	try := func(cand lockCase) *lockViolation {
+		if budget <= 0 {
+			return nil
+		}
+		budget--
+		r := execLock(&cand, nil)
+		if r.inc != "" {
+			return nil
+		}
+		return r.viol
+	}
+	cur, curV := lc, v
+	// 1. drop everything after the failing op
+	if curV.at >= 0 && curV.at+1 < len(cur.Ops) {
+		cand := cloneCase(&cur)
+		cand.Ops = cand.Ops[:curV.at+1]
+		if v2 := try(cand); sameFailure(curV, v2) {
+			cur, curV = cand, v2
+		}
+	}
+	// 2. remove earlier ops one at a time (from the back), to a fixpoint
+	for changed := true; changed && budget > 0; {
+		changed = false
+		start := len(cur.Ops) - 2
+		if curV.at == -2 { // whole-run failure (panic): any op may be the culprit, the last one included
+			start = len(cur.Ops) - 1
+		}
+		for i := start; i >= 0 && i < len(cur.Ops) && budget > 0; i-- {
+			cand := cloneCase(&cur)
+			cand.Ops = append(cand.Ops[:i], cand.Ops[i+1:]...)
+			if v2 := try(cand); sameFailure(curV, v2) {
+				cur, curV, changed = cand, v2, true
+			}
+		}
+	}
+	// 3. canonical parameters: fewer layers, JS handlers, plain target, Reflect issuers, key "a", smaller descriptors
+	accept := func(cand lockCase) bool {
+		if v2 := try(cand); v2 != nil && v2.monitor == curV.monitor && (v2.class == curV.class || classSansOp(v2.class) == classSansOp(curV.class)) {
+			cur, curV = cand, v2
+			return true
+		}
+		return false
+	}
+	for len(cur.Handlers) > 1 {
+		cand := cloneCase(&cur)
+		cand.Handlers = cand.Handlers[1:]
+		if !accept(cand) {
+			break
+		}
+	}
+	for i := range cur.Handlers {
+		if cur.Handlers[i] != "js" {
+			cand := cloneCase(&cur)
+			cand.Handlers[i] = "js"
+			accept(cand)
+		}
+	}
+	for _, k := range []string{"plain", "dense", "function"} {
+		if cur.Kind != k {
+			cand := cloneCase(&cur)
+			cand.Kind = k
+			if accept(cand) {
+				break
+			}
+		}
+	}
+	for i := range cur.Ops {
+		g := strings.Split(cur.Ops[i].Op, "/")[0]
+		if ci, ok := canonIssuer[g]; ok && cur.Ops[i].Op != ci {
+			cand := cloneCase(&cur)
+			cand.Ops[i].Op = ci
+			if ci != "set/Rr" && ci != "get/Rr" {
+				cand.Ops[i].R = ""
+			}
+			accept(cand)
+		}
+	}
+	// all ops on one key "a"
+	{
+		cand := cloneCase(&cur)
+		ka := keyIdx("a")
+		diff := false
+		for i := range cand.Ops {
+			if cand.Ops[i].K != nil && *cand.Ops[i].K != ka {
+				k := ka
+				cand.Ops[i].K = &k
+				diff = true
+			}
+		}
+		if diff {
+			accept(cand)
+		}
+	}
+	for i := range cur.Ops {
+		if cur.Ops[i].D == nil {
+			continue
+		}
+		for _, f := range []string{"e", "c", "w", "s", "g", "v"} {
+			cand := cloneCase(&cur)
+			d := cand.Ops[i].D
+			switch f {
+			case "e":
+				if d.E == nil {
+					continue
+				}
+				d.E = nil
+			case "c":
+				if d.C == nil {
+					continue
+				}
+				d.C = nil
+			case "w":
+				if d.W == nil {
+					continue
+				}
+				d.W = nil
+			case "s":
+				if d.S == nil {
+					continue
+				}
+				d.S = nil
+			case "g":
+				if d.G == nil {
+					continue
+				}
+				d.G = nil
+			case "v":
+				if d.V == nil {
+					continue
+				}
+				d.V = nil
+			}
+			accept(cand)
+		}
+	}
+	// normalise irrelevant operands
+	{
+		cand := cloneCase(&cur)
+		for i := range cand.Ops {
+			o := &cand.Ops[i]
+			g := strings.Split(o.Op, "/")[0]
+			if g != "set" && g != "call" && g != "new" && g != "am" && o.Op != "keys/assignTo" {
+				o.A = nil
+			}
+			if g != "am" {
+				o.N, o.F = nil, 0
+			}
+			if o.Op == "keys/R" || g == "pe" || g == "isExt" || g == "getProto" || g == "setProto" || g == "call" || g == "new" || g == "am" || o.Op == "isArray" || o.Op == "typeof" {
+				o.K = nil
+			}
+		}
+		accept(cand)
+	}
+	return cur, curV
+}
+
+// class text without the leading op name (so that changing the issuer keeps "the same failure")
+func classSansOp(c string) string {
+	if i := strings.IndexByte(c, ' '); i >= 0 {
+		return c[i+1:]
+	}
+	return ""
+}
+
+func runLockMin(c *core.Ctx, lc lockCase) core.Result {
+	st := c.Stats
+	st.Inc("lock:cases")
+	if c.Replay {
+		b, _ := json.MarshalIndent(lc, "", " ")
+		fmt.Printf("--- lock-step case ---\n%s\n", b)
+	}
+	res := execLock(&lc, st)
+	if res.inc != "" {
+		if res.incWhy != "" {
+			st.Inc("lock:target_inconsistent:" + lc.Kind)
+			st.SetAdd("lock_target_inconsistencies", core.Trunc(res.incWhy, 300))
+		}
+		return core.Result{Verdict: core.Inconclusive, Monitor: res.inc}
+	}
+	layers := len(lc.Handlers)
+	hk := strings.Join(lc.Handlers, "+")
+	st.SetAdd("lock_kind_x_handlers", lc.Kind+"/"+hk)
+	st.Inc(fmt.Sprintf("lock:layers:%d", layers))
+	st.Inc("lock:kind:" + lc.Kind)
+	st.Count("lock:ops_executed", int64(res.executed))
+	st.Count("lock:trap_sequence_checks", int64(res.seqChk))
+	st.Max("lock:max_ops_executed", int64(res.executed))
+	if res.out != nil {
+		for _, t := range sortedKeys(res.out.Tcount) {
+			st.Count("lock:trapcalls:"+t, int64(res.out.Tcount[t]))
+			st.SetAdd("lock_trap_x_kind_x_layers", fmt.Sprintf("%s/%s/%d", t, lc.Kind, layers))
+			for _, h := range lc.Handlers {
+				st.SetAdd("lock_trap_x_handler", t+"/"+h)
+			}
+		}
+	}
+	for _, op := range lc.Ops {
+		if i := strings.IndexByte(op.Op, '/'); i >= 0 {
+			st.Inc("lock:issuer:" + op.Op[i+1:])
+		}
+	}
+	nt := res.executed >= 5 && layers >= 2
+	if st.WantSample() && c.Index%997 == 0 {
+		st.Sample(lc)
+	}
+	if res.viol == nil {
+		return core.Result{Verdict: core.Held, NonTrivial: nt, Key: lc.sig()}
+	}
+	minC, minV := lc, res.viol
+	if c.Index >= 0 || true {
+		minC, minV = minimiseLock(lc, res.viol, 200)
+	}
+	if chk := execLock(&minC, nil); !sameFailure(chk.viol, minV) {
+		if c.Replay {
+			fmt.Printf("minimised case does not reproduce on its own (%+v); reporting the original\n", chk.viol)
+		}
+		minC, minV = lc, res.viol
+	}
+	detail := minV.detail
+	if len(minC.Ops) != len(lc.Ops) || minC.Kind != lc.Kind || len(minC.Handlers) != len(lc.Handlers) {
+		detail += fmt.Sprintf("\n(minimised from kind=%s handlers=%s %d ops; first seen: %s)", lc.Kind, hk, len(lc.Ops), core.Trunc(res.viol.detail, 400))
+	}
+	return core.Result{Verdict: core.Violated, NonTrivial: true, Key: lc.sig(), Monitor: minV.monitor,
+		Detail:    minC.sig() + "\n" + detail,
+		Signature: minV.monitor + " | " + minC.sig() + " | " + minV.class,
+		Case:      caseRec{Part: "lockstep", Lockstep: &minC}}
+}
